@@ -111,6 +111,7 @@ void shim_begin_script(MPI_Comm k_comm, int match) {
     step = 0;
 }
 void shim_set_step(int n) { step = n; }
+void shim_stop_matching(void) { matching = 0; }
 void shim_step_end(void) { shadow_post(C_STEP_END, 0, 0, NULL); }
 void shim_end_script(void) { step = -2; shadow_post(C_SCRIPT_END, 0, 0, NULL); matching = 0; }
 
